@@ -141,6 +141,10 @@ CHECKS["C34"] = dict(engine="tlc+vh", level="model_checking", ref="4.19", techni
                      text="Exhaustive over route tables (686 at 2 routes): single and batch targets must equal the first-match reference; with key-hash one replica per (pipeline, key value) across single and batch injections; with round-robin replica loads within one.",
                      note="Trusted: the mock worker's record of what reached each replica. Bounded: 5 patterns (exact/prefix/catch-all, overlapping), 4 event types, 5 key shapes, 2 pipelines with 3 and 2 replicas.")
 
+CHECKS["C22"] = dict(engine="tlc+vh", level="model_checking", ref="4.11", technique="TLA+ spec (TenantStore.tla) generates management histories with the abstract acknowledged state after each step; each history executed on a real TenantManager over a store that dies at the k-th write for EVERY k; recovery compared with the model's acknowledged / in-flight states",
+                     text="Fault enumeration driven by the specification: for every generated history and every store-write crash point the recovered tenants, API keys and pipelines (names, sources) must equal the model's last acknowledged state or that state plus the one in-flight operation; without a crash the live manager must equal the model after every operation.",
+                     note="Trusted: the crashing StateStore wrapper (write-granular). Bounded: 2 tenants x 2 pipelines x 4 program shapes (incl. .distinct(), .limit(), sequences), histories of 5 (7) operations.")
+
 NOT_APPLICABLE = {
     "C41": "parser totality over arbitrary strings: no state/transition system to specify; a TLA+ model would only enumerate token strings (fuzzing under another name)",
     "C43": "LSP handler robustness over arbitrary text/cursor: per-call robustness, no protocol state in the property; outside model-based verification",
